@@ -553,3 +553,33 @@ func asSuffixErr(err error) *pointerSuffixError {
 //@ ensures accepted: result1 == nil ==> d.Tokens.Last == old(d.Tokens.Last)+1
 //@ ensures value-window: result1 == nil ==> len(result0) == d.prevEnd-d.prevStart && cap(result0) == len(result0) && sliceOf(result0, d.buf)
 //@ ensures peek-cleared: d.peekPos == 0
+
+//@ extern bytes.LastIndexByte(s []byte, c byte) (result int)
+//@ trusted bytes: index of the last occurrence of c, or -1
+//@ ensures -1 <= result && result < len(s)
+//@ ensures result >= 0 ==> s[result] == c && vForall(result+1, len(s), func(k int) bool { return s[k] != c })
+//@ ensures result < 0 ==> vForall(0, len(s), func(k int) bool { return s[k] != c })
+
+//@ extern strings.LastIndexByte(s string, c byte) (result int)
+//@ trusted strings: index of the last occurrence of c, or -1
+//@ ensures -1 <= result && result < len(s)
+
+// appendPointer only appends (the reversed tokens in forward order); it relies on
+// every token of reversePointer being introduced by '/'.
+//
+//@ func (*pointerSuffixError).appendPointer
+//@ property C16 C20
+//@ requires e != nil && (len(e.reversePointer) == 0 || e.reversePointer[0] == '/') && distinctArrays(pointer, e.reversePointer)
+//@ modifies pointer[len(pointer):cap(pointer)]
+//@ ensures alias: sameOrFresh(result, pointer)
+//@ ensures length: len(result) == len(pointer)+len(e.reversePointer)
+//@ ensures prefix: vForall(0, len(pointer), func(k int) bool { return result[k] == old(pointer[k]) })
+//@ loop 0 invariant rest: len(bi) <= len(e.reversePointer) && sameSlice(bi, e.reversePointer[:len(bi)]) && (len(bi) == 0 || bi[0] == '/')
+//@ loop 0 invariant out: sameOrFresh(bo, pointer) && len(bo) == len(pointer)+len(e.reversePointer)-len(bi) && distinctArrays(bo, e.reversePointer)
+//@ loop 0 invariant prefix: vForall(0, len(pointer), func(k int) bool { return bo[k] == old(pointer[k]) })
+//@ loop 0 invariant kept: unchanged(e.reversePointer)
+//@ loop 0 decreases len(bi)
+
+//@ func (Pointer).Parent
+//@ property C16 C20
+//@ ensures len(result) <= len(p)
